@@ -22,7 +22,7 @@ RULE = ("synthetic: structural patterns (n<=2 quick, n<=3 thorough sampled) and 
         "Non-trivial = some-free partition with a binding truncation (alpha*<1); distinct = distinct inputs (hash)")
 ASSUMPTIONS = [
     "point tolerance scale*max(1e-9, 5e4*(cond(Z'BZ)+cond(middle matrix))*eps; 1e-4*scale when more pairs than free variables are stored (singular compact system)) (largest observed ratio reported in maxima); inputs with cond(B) > 1e8 or cond(middle matrix) > 1e12 skipped and counted",
-    "feasibility of the returned point is required to 8 ulp here (exactness of evaluated points is C02's subject)",
+    "feasibility of the returned point is exact (it was tolerated to 8 ulp until the repository projected the point, fix b3344a3)",
     "intercepted events whose auxiliary vector disagrees with W^T(x_cp-x) or whose x is infeasible are attributed upstream and skipped",
 ]
 KMAX = 1e8
@@ -63,7 +63,9 @@ def judge_subspace(out, x, xc, g, lb, ub, B, xbar, where, tags, mats=None):
         i = int(np.nonzero(active & (xbar != xc))[0][0])
         out.violate("active_variable_moved", f"{where}: variable {i} is on a bound at x_cp ({xc[i]!r}) but xbar[{i}]={xbar[i]!r}", **tags)
         return ref
-    slack = 8 * EPS * np.maximum(1.0, np.maximum(np.abs(np.where(np.isfinite(lb), lb, 0)), np.abs(np.where(np.isfinite(ub), ub, 0))))
+    # exact: "truncated by the largest factor <= 1 that keeps the point in the box" (one ulp outside a bound on which a variable rests
+    # gives the line search a zero maximum step; repository fix b3344a3)
+    slack = 0.0
     if np.any(xbar < lb - slack) or np.any(xbar > ub + slack):
         i = int(np.argmax((xbar < lb - slack) | (xbar > ub + slack)))
         out.violate("subspace_point_outside_box", f"{where}: xbar[{i}]={xbar[i]!r} outside [{lb[i]!r},{ub[i]!r}]", **tags)
